@@ -294,8 +294,12 @@ class GeoIndex:
             for distances_to_query in jagged_distances
         ])
 
-        # Return the distances in kilometers
-        distances /= 1000.
+        # Return the distances in kilometers (the haversine metric yields
+        # angles in radians, the minkowski metric chords in meters)
+        if self.metric == "haversine":
+            distances *= earth_radius / 1000.
+        else:
+            distances /= 1000.
 
         if self.shuffler is None:
             return pairs, distances
